@@ -17,8 +17,8 @@ from harness import blocks
 from harness.props import c09
 
 PROPERTY_ID = 'C17'
-RULE = ('Histories of 3-10 operations in one process over 2-3 generated block specs and 1-2 book-model specs (SIM, SIMEX1, PC '
-        'with generated parameters): solve a block with a fresh solver (reduction on/off), build and solve a model through '
+RULE = ('Histories of 3-10 operations in one process over 2-3 generated block specs, 0-2 book-model specs (SIM, SIMEX1, PC '
+        'with generated parameters) and 0-1 generated single-zone economy (its placeholder names carry the process-wide ID counter): solve a block with a fresh solver (reduction on/off), build and solve a model through '
         'main(), re-solve a used solver, re-parse a used solver with a different block and solve, switch standard logging on '
         '(temp directory owned by the case) / off, set TraceStep for the following solves, build throw-away models (shifts '
         'the ID counter). Each solve is compared with the same spec solved alone in a fresh interpreter. Non-trivial: >= 2 '
@@ -89,10 +89,16 @@ def case(draw):
         first[1] = first[1] + ' + 0.10*f_half(' + first[0] + ')'
     nm = draw(st.sampled_from([1, 1, 2, 0]))
     models = [draw(c09.params(draw(st.sampled_from(['SIM', 'SIMEX1', 'PC'])))) for _ in range(nm)]
+    from harness import econ
+    econs = [draw(econ.economy(zones=(1, 1), horizon=(2, 2), gold=False))] if draw(st.sampled_from([True, False])) else []
     ops = []
     for _ in range(draw(st.integers(3, 10))):
         k = draw(st.sampled_from(['solve-block', 'reparse', 'solve-block', 'resolve', 'solve-model', 'log-on', 'log-off',
-                                  'trace', 'throwaway', 'reparse']))
+                                  'trace', 'throwaway', 'reparse', 'solve-econ']))
+        if k == 'solve-econ':
+            if econs:
+                ops.append([k, 0])
+            continue
         if k == 'solve-block':
             ops.append([k, draw(st.integers(0, nb - 1)), draw(st.booleans())])
         elif k == 'reparse':
@@ -108,7 +114,7 @@ def case(draw):
             ops.append([k, draw(st.integers(1, 3))])
         else:
             ops.append([k])
-    return {'blocks': bl, 'models': models, 'ops': ops}
+    return {'blocks': bl, 'models': models, 'econs': econs, 'ops': ops}
 
 
 def same(a, b):
@@ -232,6 +238,22 @@ def run(spec):
                 solvers.append((mod, item))
                 if op[2] or trace is not None:
                     diag_before_compare = True
+            elif op[0] == 'solve-econ':
+                from harness import econ
+                espec = spec['econs'][op[1]]
+                item = {'type': 'econ', 'spec': espec}
+                built = econ.build(espec, maxtime=espec['horizon'])
+                diag = False
+                outcome = 'ok' if built.error is None else type(built.error).__name__
+                ro, rs = reference(item)
+                if outcome != ro:
+                    raise Violation('C17/econ-outcome-differs', 'generated economy: %s here, %s alone; history %r' %
+                                    (outcome, ro, hist))
+                if outcome == 'ok':
+                    msg = same({k: list(v) for k, v in built.model.EquationSolver.TimeSeries.items()}, rs)
+                    if msg:
+                        raise Violation('C17/econ-series-differ', 'generated economy: %s; history %r' % (msg, hist))
+                used_specs.add('e%d' % op[1])
             elif op[0] == 'log-on':
                 Logger.register_standard_logs(os.path.join(tmp, 'log%d' % i))
                 diag = True
@@ -251,7 +273,7 @@ def run(spec):
     return {'nontrivial': len(used_specs) >= 2 and diag_before_compare, 'labels': labels}
 
 
-FAMILIES = [Family('histories', case, run, quick=400, thorough=6000)]
+FAMILIES = [Family('histories', case, run, quick=320, thorough=6000)]
 
 MANIFEST_INFO = {
     'level_text': 'Model-based exploration of process histories: generated interleavings of building, solving, re-solving and '
